@@ -367,7 +367,7 @@ func fnSetRange(ctx *cmdContext, args map[string]any) (output respValue, err err
 		output.data = respErrorString("ERR offset is out of range")
 		return
 	}
-	if offset+int64(len(value)) > maxStringLength {
+	if offset > maxStringLength-int64(len(value)) {
 		output.data = respErrorString("ERR string exceeds maximum allowed size (proto-max-bulk-len)")
 		return
 	}
